@@ -59,11 +59,16 @@ impl_nt!(KeyNumber, u8, 127);
 impl_nt!(ControllerNumber, u8, 127);
 
 /// all in-range values of a newtype, built through the checked constructor
-/// (a value the checked constructor wrongly rejects is left out here - the `new_<T>` sub-check of
-/// C04 / C05 reports it - so that the rest of the run still takes place instead of ending in an
-/// infrastructure error)
+/// (a value the checked constructor wrongly rejects is obtained by parsing instead, or replaced by
+/// MIN - the `new_<T>` sub-check of C04 / C05 reports the rejection - so that the rest of the run
+/// still takes place instead of ending in an infrastructure error)
 fn all_values<N: Nt>() -> Vec<N> {
-    (0..=N::MAXV).filter_map(|v| guarded(|| N::new_repr(v)).ok()).collect()
+    (0..=N::MAXV)
+        .map(|v| match guarded(|| N::new_repr(v)) {
+            Ok(x) => x,
+            Err(_) => guarded(|| v.to_string().parse::<N>().ok()).ok().flatten().unwrap_or_else(N::min_const),
+        })
+        .collect()
 }
 
 // ---------------------------------------------------------------------------------------------
@@ -1234,8 +1239,11 @@ pub fn surface_case(kind: &str, target: &str, a: u128, b: u128) -> Option<CheckR
     macro_rules! go {
         ($t:ident, $repr:ty) => {{
             let max = <$t as Nt>::MAXV;
-            let x = <$t as Nt>::new_repr(a.min(max));
-            let y = <$t as Nt>::new_repr(b.min(max));
+            // (operands are built through the checked constructor; if that is broken, new_<T> reports it)
+            let (x, y) = match guarded(|| (<$t as Nt>::new_repr(a.min(max)), <$t as Nt>::new_repr(b.min(max)))) {
+                Ok(p) => p,
+                Err(_) => return Some(Ok(false)),
+            };
             let p = crate::impls::probe::<$t>();
             let pr = crate::impls::probe::<($t, $repr)>();
             let yr = b.min(<$repr>::MAX as u128) as $repr;
